@@ -36,6 +36,7 @@
 #include <xercesc/sax2/XMLReaderFactory.hpp>
 #include <xercesc/framework/MemBufFormatTarget.hpp>
 #include <xercesc/validators/common/Grammar.hpp>
+#include <xercesc/dom/impl/DOMImplementationImpl.hpp>
 #include <pthread.h>
 #include <sched.h>
 #include <set>
@@ -333,6 +334,10 @@ static std::string runXcode(const Req& r, FacSet& fac) {
 // ------------------------------------------------------------------------------------------------
 // create / destroy parsers and serialisers
 // ------------------------------------------------------------------------------------------------
+struct NullSource : public DOMImplementationSource {
+    DOMImplementation* getDOMImplementation(const XMLCh*) const { return 0; }
+    DOMImplementationList* getDOMImplementationList(const XMLCh*) const { return 0; }
+};
 static std::string runLife(const Req& r, FacSet& fac) {
     static const XMLCh gLS[] = {chLatin_L, chLatin_S, chNull};
     std::vector<std::string> seq = split(get(r, "seq"), ',');
@@ -357,6 +362,11 @@ static std::string runLife(const Req& r, FacSet& fac) {
                 fac.insert("domimpl-registry");
                 DOMImplementationLS* ls = (DOMImplementationLS*)DOMImplementationRegistry::getDOMImplementation(gLS);
                 DOMLSSerializer* p = ls->createLSSerializer(); dtors.push_back([p]() { p->release(); });
+            }
+            else if (s == "src") {
+                // registers one more (never matching) DOMImplementationSource: mutates the registry vector other threads search
+                fac.insert("domimpl-registry");
+                DOMImplementationRegistry::addSource(new NullSource);
             }
             else continue;
             out += s + " ";
@@ -449,7 +459,8 @@ static void* threadMain(void* p) {
 
 // warm-ups (main thread, before the barrier) -- used only to step over KNOWN findings
 static void warmKidOK() {
-    DOMImplementation* impl = DOMImplementationRegistry::getDOMImplementation(X("Core").c());
+    // (not through DOMImplementationRegistry: its lazily filled source vector must stay cold)
+    DOMImplementation* impl = DOMImplementationImpl::getDOMImplementationImpl();
     DOMDocument* doc = impl->createDocument(0, X("w").c(), 0);
     doc->getDocumentElement()->appendChild(doc->createTextNode(X("t").c()));
     doc->release();
